@@ -64,11 +64,16 @@ RetOK(e) == /\ e.ret \in last'.allowed
 (* C17: a call the specification says needs no more working space than the *)
 (* object already holds must not allocate shard-proportional memory and    *)
 (* must leave the buffer where it is.  "Shard-proportional" is decided on  *)
-(* histories with large shards: anything at least one shard long.          *)
+(* histories with HUGE shards (>= 400 000 bytes): anything at least one    *)
+(* shard long.  With smaller shards a constant-size scratch allocation     *)
+(* (say a 128 KiB array of 65 536 field elements moved from the stack to   *)
+(* the heap) would be mistaken for one; there only the buffer's address    *)
+(* and capacity are required to stay.                                      *)
 (***************************************************************************)
+HugeShard == 400000
 AllocOK(e) ==
   (Has(e, "abytes") /\ ~last'.may_alloc /\ cfg'.sb >= 1024) =>
-     /\ e.abytes < cfg'.sb
+     /\ (cfg'.sb >= HugeShard => e.abytes < cfg'.sb)
      /\ (Has(e, "ptr_same") => e.ptr_same)
 CapacityOK(e) ==
   \* the held working space never shrinks below what the history needed
